@@ -57,7 +57,7 @@ def check_all(ctx, facts):
     prov = Prov(facts)
     with open(os.path.join(CORPUS, "shapes.json")) as fh:
         shapes = json.load(fh)
-    ctx.floor("R1", "trace_shapes", len(shapes), 63, "corpus shapes")
+    ctx.floor("R1", "trace_shapes", len(shapes), 65, "corpus shapes")
     combos = {(s["template"], s["name_kind"], tuple(p[0] for p in s["props"])) for s in shapes}
     ctx.analysed.setdefault("X", {})["template_x_name_x_props_combinations"] = len(combos)
     n_checked = 0
@@ -292,7 +292,7 @@ def check_all(ctx, facts):
                       "the with_properties closure builds the configured keys in order; literal values are constants ({{ }} unescaped), "
                       "formatted values are format!(..) over the function's arguments", detail,
                       "%s (expected %s)" % (detail, want), extra="props")
-    ctx.floor("R1", "trace_shapes", n_checked, 63, "corpus shapes found in the expanded program")
+    ctx.floor("R1", "trace_shapes", n_checked, 65, "corpus shapes found in the expanded program")
 
 
 def macro_inventory(ctx, facts_e):
